@@ -631,3 +631,34 @@ pub fn run_children(args: &Args, n: usize, report: &Report, on_death: &(dyn Fn(u
         }
     });
 }
+
+/// Runs `n` work items either in this process (we are a worker: `--child`) or, as the
+/// parent, in worker processes. Returns true if this process was a worker (the caller
+/// then returns exit code 0 without finishing the report).
+/// `counts(report)` must `report.set(..)` every numeric counter of the check from the
+/// process-local atomics; the parent sums them over the workers.
+pub fn run_items_isolated(
+    args: &Args,
+    report: &Report,
+    n: usize,
+    run_item: &(dyn Fn(usize) + Sync),
+    counts: &(dyn Fn(&Report) + Sync),
+    describe: &(dyn Fn(usize) -> (String, String, Value) + Sync),
+) -> bool {
+    if let Some(ctl) = child_ctl(args) {
+        for i in ctl.items(n) {
+            ctl.mark(i);
+            run_item(i);
+            counts(report);
+            report.export_to(&ctl.out);
+        }
+        counts(report);
+        report.export_to(&ctl.out);
+        return true;
+    }
+    run_children(args, n, report, &|i, status| {
+        let (sig, what, replay) = describe(i);
+        report.violation(&format!("{sig}|process-died"), &format!("{what}: the process died ({status}): abort / failed enormous allocation / stack overflow"), replay);
+    });
+    false
+}
